@@ -14,6 +14,7 @@ DRIVER_MODULES = ["SchedGsmtime"]
 LEAN_MODEL_MODULES = ["OsmoVerif.Model.SchedGsmtime", "OsmoVerif.Lemmas.SchedGsmtime", "OsmoVerif.Lemmas.SchedGsmtimeTdma"]
 ASSUMPTIONS = [
     "gsmtime part: theorems are about OsmoVerif.Model.SchedGsmtime: hand model, statement by statement, of sched_gsmtime_init, sched_gsmtime, sched_gsmtime_execute (both ifs of the loop body, the break), sched_gsmtime_reset; the llist_head lists are Lean lists of the linked event structures, the 16-element pool with its explicit -EBUSY outcome, uint32_t fn / uint16_t p3 / fn_sched = (fn + SCHEDULE_AHEAD) % GSM_MAX_FN with the sum in unsigned 32 bit; the pointer si is the constant item set it points to; tdma_schedule_set is the function of Model/TdmaSched.lean (not a copy)",
+    "gsmtime part: the statements about sched_gsmtime.c alone hold for every callback environment; frames_safe assumes EnvOk (calls made from inside tdma_sched_execute are admissible); the composed statements event_set_runs_at / event_set_runs_in_frame assume NoReentry (callbacks make no scheduler calls from inside) as an explicit hypothesis; the callbacks of harness/c/c08_gsmtime_harness.c make none",
     "gsmtime part: the frame interrupt is modelled as sync.c runs it (l1Sync: traffic; tdma_sched_execute(); traffic (mframe_schedule); sched_gsmtime_execute(current_time.fn); tdma_sched_advance()); sched_gsmtime() is not re-entered from inside sched_gsmtime_execute (callers mask the frame interrupt: local_firq_save in prim_rach.c / prim_freq.c); sched_gsmtime_init() runs once on the link-time state of the lists",
     "gsmtime part: tied to the current tree by differential execution of the unchanged sched_gsmtime.c + tdma_sched.c (host build; the call to tdma_schedule_set goes through a recording wrapper of the harness; every history in a fresh process image) on structured random and boundary histories: pool exhaustion, equal fn's, out-of-order insertion (every sequence over 3 frame numbers up to length 4), too-close and past frames, resets, long runs, the hyperframe wrap and the uint32_t wrap; ARRAY_SIZE(sched_gsmtime_events), SCHEDULE_AHEAD, SCHEDULE_LATENCY, EBUSY, GSM_MAX_FN and the field widths are regenerated from the compiler's view of the file on every run and used by the theorems (gen_consts)",
 ]
